@@ -515,7 +515,7 @@ static int replay(const char *key) {
     static char ckey[1024];
     vc_case("replay", key);
     vc_viol_print_per_class = 5;
-    transition(hist, d - 1, hist[d - 1], ckey, 1);
+    transition(hist, d - 1, hist[d - 1], ckey, HIST_MODE ? 0 : 1);
     printf("NOTE\tfinal state %s\n", ckey);
     return 0;
 }
